@@ -23,9 +23,24 @@ func EncodeBody(m Message) []byte {
 	return encVal(b, reflect.ValueOf(m).Elem())
 }
 
+// Opaque is a well-delimited frame of an arbitrary type with an arbitrary
+// body: what a peer sends when it speaks a message the receiver does not know
+// (or gets wrong).  It is never produced by decoding.
+type Opaque struct {
+	Type uint8
+	Body []byte
+}
+
+func (o *Opaque) MsgType() uint8 { return o.Type }
+
 // Encode returns the complete frame.
 func Encode(tag uint16, m Message) []byte {
-	body := EncodeBody(m)
+	var body []byte
+	if o, ok := m.(*Opaque); ok {
+		body = o.Body
+	} else {
+		body = EncodeBody(m)
+	}
 	f := make([]byte, HeaderLen, HeaderLen+len(body))
 	binary.LittleEndian.PutUint32(f[0:4], uint32(HeaderLen+len(body)))
 	f[4] = m.MsgType()
@@ -260,6 +275,9 @@ func DirentSize(name string) int { return 13 + 8 + 1 + 2 + len(name) }
 func String(m Message) string {
 	if m == nil {
 		return "<nil>"
+	}
+	if o, ok := m.(*Opaque); ok {
+		return fmt.Sprintf("Opaque{Type:%d Body:%d bytes}", o.Type, len(o.Body))
 	}
 	v := reflect.ValueOf(m).Elem()
 	s := typeNameOf(m) + "{"
